@@ -361,6 +361,10 @@ func (fr *frame) fileInfo(name value, n *fsNode) value {
 func errTuple(v value, err value) value { return tuple{v, err} }
 
 func (fr *frame) fsOpen(path value, create, excl, trunc, write bool, op string) (value, value) {
+	return fr.fsOpenPerm(path, create, excl, trunc, write, op, 0666)
+}
+
+func (fr *frame) fsOpenPerm(path value, create, excl, trunc, write bool, op string, perm uint32) (value, value) {
 	if fr.fsStep(op, pathString(fr.splitPath(path)), true) {
 		return (*value)(nil), fr.pathError(op, path, eIO)
 	}
@@ -372,7 +376,8 @@ func (fr *frame) fsOpen(path value, create, excl, trunc, write bool, op string) 
 		if !create {
 			return (*value)(nil), fr.pathError("open", path, eNOENT)
 		}
-		e = &fsEntry{name: base, node: &fsNode{kind: nFile, content: "", exec: false, perm: 0644}}
+		// a newly created file gets perm (umask 022): only the executable bits matter to the model
+		e = &fsEntry{name: base, node: &fsNode{kind: nFile, content: "", exec: perm&0111 != 0, perm: perm &^ 022}}
 		d.entries = append(d.entries, e)
 	} else {
 		if create && excl {
@@ -409,7 +414,7 @@ func init() {
 	})
 	register("os.OpenFile", func(fr *frame, a []value) value {
 		fl := asInt64(a[1])
-		return errTuple(fr.fsOpen(a[0], fl&oCREATE != 0, fl&oEXCL != 0, fl&oTRUNC != 0, fl&(oWRONLY|oRDWR) != 0, "openfile"))
+		return errTuple(fr.fsOpenPerm(a[0], fl&oCREATE != 0, fl&oEXCL != 0, fl&oTRUNC != 0, fl&(oWRONLY|oRDWR) != 0, "openfile", uint32(asInt64(fr.concretizeInt(a[2])))))
 	})
 	register("os.CreateTemp", func(fr *frame, a []value) value {
 		fs := fr.run().FS()
@@ -452,7 +457,7 @@ func init() {
 		return tuple{symBytes{c, nil}, nilErr}
 	})
 	register("os.WriteFile", func(fr *frame, a []value) value {
-		f, err := fr.fsOpen(a[0], true, false, true, true, "writefile")
+		f, err := fr.fsOpenPerm(a[0], true, false, true, true, "writefile", uint32(asInt64(fr.concretizeInt(a[2]))))
 		if err.(iface).t != nil {
 			return err
 		}
